@@ -32,6 +32,9 @@ type Prog struct {
 	declCache map[*ssa.Function]string
 }
 
+var dumpingNames bool
+var canonNotes []string
+
 // PackageFloor is the minimum number of repository packages a load must
 // yield to be accepted as "the program"; 116 on the pinned tree.
 const PackageFloor = 100
@@ -67,6 +70,41 @@ func Load(dir string, overlay map[string][]byte) (*Prog, error) {
 			errs = errs[:10]
 		}
 		return nil, fmt.Errorf("type/load errors (cannot analyse):\n  %s", strings.Join(errs, "\n  "))
+	}
+	// functions renamed with respect to the reference tree are read under their reference names
+	// (see canon.go): rewrite in memory and load once more
+	if os.Getenv("TV_NOCANON") == "" && !dumpingNames {
+		var repoPkgs []*packages.Package
+		for _, pk := range initial {
+			if pk.PkgPath == Module || strings.HasPrefix(pk.PkgPath, Module+"/") {
+				repoPkgs = append(repoPkgs, pk)
+			}
+		}
+		if ren := funcRenames(repoPkgs); len(ren) > 0 {
+			if ov := renameOverlay(repoPkgs, ren, overlay); ov != nil {
+				for k, v := range overlay {
+					if _, has := ov[k]; !has {
+						ov[k] = v
+					}
+				}
+				fset2 := token.NewFileSet()
+				cfg2 := *cfg
+				cfg2.Fset = fset2
+				cfg2.Overlay = ov
+				if again, err2 := packages.Load(&cfg2, "./..."); err2 == nil {
+					bad := false
+					packages.Visit(again, nil, func(p *packages.Package) {
+						if len(p.Errors) > 0 {
+							bad = true
+						}
+					})
+					if !bad {
+						initial, fset = again, fset2
+						canonNotes = append(canonNotes, fmt.Sprintf("%d renamed function(s) read under their reference names", len(ren)))
+					}
+				}
+			}
+		}
 	}
 	p := &Prog{Repo: dir, Fset: fset, ByPath: map[string]*packages.Package{}, SSAPkgs: map[string]*ssa.Package{},
 		declCache: map[*ssa.Function]string{}}
@@ -149,6 +187,7 @@ func Load(dir string, overlay map[string][]byte) (*Prog, error) {
 		}
 	}
 	sort.SliceStable(p.Funcs, func(i, j int) bool { return p.FuncName(p.Funcs[i]) < p.FuncName(p.Funcs[j]) })
+	theProg = p
 	return p, nil
 }
 
